@@ -328,13 +328,22 @@ pub fn glue11(out: &mut Out, thorough: bool) {
     // mate score), so the game loop runs to its end in milliseconds
     let mut mates: Vec<Tagged> = Vec::new();
     crate::engine::mating_positions(&mut rng, if thorough { 400 } else { 40 }, &mut mates);
+    // keep the roots with a mate in one (the game is then over within milliseconds), a dozen in the quick tier
+    let mates: Vec<Tagged> = mates
+        .into_iter()
+        .filter(|t| {
+            let b = t.board;
+            crate::common::guard(|| b.legals().any(|m| b.move_new(m).map(|nb| nb.state() == chess_movegen::GameState::CheckMate).unwrap_or(false))).unwrap_or(false)
+        })
+        .take(if thorough { 150 } else { 12 })
+        .collect();
     for t in mates.iter() {
         let v = view(&t.board);
         let fen = fen_of_view(&v);
         let p = pos64(&v);
         let mut first_move: Option<String> = None;
         out.case("cli-game", true, format!("expect game-over #cli-game {p}"), || {
-            let (code, so, lines) = cli_run(Some(&fen), 4000, false);
+            let (code, so, lines) = cli_run(Some(&fen), 2000, false);
             // "<score> <move> moves: N, max_depth: D" lines carry the moves played
             for l in lines.iter() {
                 if l.contains(" moves: ") && l.contains("max_depth") {
